@@ -3,8 +3,8 @@ CONSTANTS
  NR = 2
  MaxNodes = 4
  MaxDepth = 2
- MaxItems = 3
- ScalarIds = {3,5,7,9,11,12}
+ MaxItems = 4
+ ScalarIds = {5,7,9,11,12}
  KeyIds = {1,2}
  MaxOps = 3
  KeepHist = TRUE
